@@ -199,14 +199,21 @@ func authOK(mode int, v cvar) bool {
 	return false
 }
 
-func newLifeH(caps lifeCaps, authMode int) *lifeH {
+func newLifeH(caps lifeCaps, authMode int) *lifeH { return newLifeHOpts(caps, authMode, 0) }
+
+// brokerDecodeAll decodes everything the broker has written to the connection so far.
+func brokerDecodeAll(lc *lconn) ([]packets.Packet, []byte, error) {
+	return broker.DecodeStream(lc.c.Version, lc.c.MC.AllOutput())
+}
+
+func newLifeHOpts(caps lifeCaps, authMode int, quiesce time.Duration) *lifeH {
 	c := mqtt.NewDefaultServerCapabilities()
 	c.MaximumSessionExpiryInterval = caps.maxSEI
 	c.MinimumProtocolVersion = caps.minVer
 	c.MaximumQos = caps.maxQos
 	c.RetainAvailable = caps.retainAvail
 	h := &lifeH{caps: caps, authMode: authMode}
-	h.b = broker.New(broker.Opts{Caps: c, Auth: authDecision(authMode), ACL: broker.AllowACL, ManualTeardown: true})
+	h.b = broker.New(broker.Opts{Caps: c, Auth: authDecision(authMode), ACL: broker.AllowACL, ManualTeardown: true, QuiesceTimeout: quiesce})
 	h.base = time.Now().Unix() - 1000
 	return h
 }
